@@ -49,10 +49,37 @@ def _shard_fv(name, shard, nshards, tier, seed):
     return c13._shard('mps.from_vector.tol', shard, nshards, tier, seed + 77)
 
 
+def _shard_ctor(name, shard, nshards, tier, seed):
+    """constructors with a numeric fill (the mask that enforces block sparsity), incl. malformed boundary bonds"""
+    import pytenet as ptn
+    from ..common import py_call
+    from .. import gen
+    c = Corr(name)
+    rng = np.random.default_rng([seed, shard, 22])
+    n = (240 if tier == 'quick' else 2400) // nshards + 1
+    ops, impls, sigs = [], [], []
+    for _ in range(n):
+        L = int(rng.integers(0, 4)); d = int(rng.integers(1, 4))
+        qd = mpsgen.rand_qd(rng, d)
+        qD = [gen.charges(rng, 1 if (i in (0, L) and rng.random() < 0.9) else int(rng.integers(1, 4)), int(rng.integers(0, 4))) for i in range(L + 1)]
+        fill = [1, 2, -1, 0.5, 1 + 2j, 0][int(rng.integers(0, 6))]
+        cls = 'MPS' if rng.random() < 0.5 else 'MPO'
+        op = {'op': 'mps.filled' if cls == 'MPS' else 'mpo.filled', 'qd': exact.enc_ints(qd), 'qD': [exact.enc_ints(q) for q in qD], 'fill': exact.enc_scalar(fill)}
+
+        def f(cls=cls, qd=qd, qD=qD, fill=fill):
+            o = (ptn.MPS if cls == 'MPS' else ptn.MPO)(qd, qD, fill=fill)
+            return {'mps' if cls == 'MPS' else 'mpo': mpsgen.enc_mp(o)}
+        ops.append(op); impls.append(py_call(f)); sigs.append((cls, L, d, tuple(len(q) for q in qD), str(fill)))
+    replies = common.drive(ops)
+    for op, im, mo, sg in zip(ops, impls, replies, sigs):
+        c.add(op, im, mo, cls=sg, branches=[sg[0]] + ([] if im['ok'] else ['err=' + im['err']]))
+    return c
+
+
 def correspondence(tier, seed):
     c = common.parallel_shards(_shard_fv, 'mps.from_vector.tol', tier, seed)
     c.name = 'mps.from_vector (truncating)'
-    return [common.parallel_shards(_shard, 'history', tier, seed), c]
+    return [common.parallel_shards(_shard, 'history', tier, seed), c, common.parallel_shards(_shard_ctor, 'constructors', tier, seed)]
 
 
 # ----------------------------------------------------------------------------- oracle
